@@ -26,9 +26,10 @@ VARIABLES
     rew,      \* reported expected rewards
     fstrat,   \* reported final strategies
     res,      \* outcome of the last finished call
+    ro,       \* RewardOracle of the conditioned game, computed once when conditioning ends
     hist      \* outcomes of earlier calls on this description, per prune flag
 
-svars == <<desc, orc, pc, prune, nodes, prob, rstrat, rew, fstrat, res, hist>>
+svars == <<desc, orc, pc, prune, nodes, prob, rstrat, rew, fstrat, res, ro, hist>>
 
 Null == [none |-> TRUE]
 Working == [desc EXCEPT !.tr = nodes]          \* the game the solver currently holds
@@ -58,13 +59,13 @@ IdealStrat(g, rows, val) ==     \* argmax / argmin in transition order
 CallEffect(p) ==
     /\ prune' = p /\ pc' = "called" /\ nodes' = desc.tr
     /\ prob' = Null /\ rstrat' = Null /\ rew' = Null /\ fstrat' = Null
-    /\ UNCHANGED <<desc, orc, res, hist>>
+    /\ UNCHANGED <<desc, orc, res, ro, hist>>
 Call(p) == pc = "idle" /\ CallEffect(p)
 
 Finish(r) ==
     /\ res' = r /\ pc' = "idle"
     /\ hist' = IF hist[prune] = Null THEN [hist EXCEPT ![prune] = r] ELSE hist
-    /\ UNCHANGED <<desc, orc, prune, nodes, prob, rstrat, rew, fstrat>>
+    /\ UNCHANGED <<desc, orc, prune, nodes, prob, rstrat, rew, fstrat, ro>>
 
 \* validation (check_game, init_states, Node.check_next_states, "no final state")
 Reject == pc = "called" /\ ~WellFormed(desc) /\ Finish([k |-> "ValueError", cls |-> "malformed"])
@@ -72,7 +73,7 @@ Reject == pc = "called" /\ ~WellFormed(desc) /\ Finish([k |-> "ValueError", cls 
 \* reverse_dfs + value_iteration_reachability
 ReachEffect(p) ==
     /\ prob' = p /\ pc' = "reached"
-    /\ UNCHANGED <<desc, orc, prune, nodes, rstrat, rew, fstrat, res, hist>>
+    /\ UNCHANGED <<desc, orc, prune, nodes, rstrat, rew, fstrat, res, ro, hist>>
 Reach(p) == pc = "called" /\ WellFormed(desc) /\ ReachClauses(desc, orc, p) = {} /\ ReachEffect(p)
 
 \* the ValueError at the end of value_iteration_reachability
@@ -83,7 +84,7 @@ NoSolution == pc = "reached" /\ NoSolutionGuard
 \* _get_reachability_strategies
 RStratEffect(rs) ==
     /\ rstrat' = rs /\ pc' = "strategies"
-    /\ UNCHANGED <<desc, orc, prune, nodes, prob, rew, fstrat, res, hist>>
+    /\ UNCHANGED <<desc, orc, prune, nodes, prob, rew, fstrat, res, ro, hist>>
 RStrat(rs) == pc = "reached" /\ ~NoSolutionGuard
               /\ RStratClauses(desc, orc, prob, rs) = {} /\ RStratEffect(rs)
 
@@ -92,6 +93,7 @@ RestrictP1 ==
     /\ pc = "strategies"
     /\ nodes' = RestrictP1To(Working, AllowRep(desc, rstrat)).tr
     /\ pc' = IF prune THEN "pruning" ELSE "conditioned"
+    /\ ro' = IF prune THEN ro ELSE RewardOracle(desc, orc, prob, rstrat, prune)
     /\ UNCHANGED <<desc, orc, prune, prob, rstrat, rew, fstrat, res, hist>>
 
 \* prune_paths: one Player 1 / probabilistic state at a time, in any order
@@ -99,40 +101,40 @@ HasDead(s) == desc.owner[s] \in {P1, PR} /\ \E j \in DOMAIN nodes[s] : nodes[s][
 PrunePath(s) ==
     /\ pc = "pruning" /\ HasDead(s)
     /\ nodes' = [nodes EXCEPT ![s] = PruneRow(Working, ZeroRep(prob), s)]
-    /\ UNCHANGED <<desc, orc, pc, prune, prob, rstrat, rew, fstrat, res, hist>>
+    /\ UNCHANGED <<desc, orc, pc, prune, prob, rstrat, rew, fstrat, res, ro, hist>>
 PruneDone ==
     /\ pc = "pruning" /\ \A s \in 1..desc.n : ~HasDead(s)
     /\ pc' = "clearing"
-    /\ UNCHANGED <<desc, orc, prune, nodes, prob, rstrat, rew, fstrat, res, hist>>
+    /\ UNCHANGED <<desc, orc, prune, nodes, prob, rstrat, rew, fstrat, res, ro, hist>>
 
 \* prune_states: one round of "clear the non-Player-1 states nobody points to"
 ToClear == {s \in Unreferenced(Working) : Len(nodes[s]) > 0}
 ClearRound ==
     /\ pc = "clearing" /\ ToClear # {}
     /\ nodes' = ClearStates(Working, ToClear).tr
-    /\ UNCHANGED <<desc, orc, pc, prune, prob, rstrat, rew, fstrat, res, hist>>
+    /\ UNCHANGED <<desc, orc, pc, prune, prob, rstrat, rew, fstrat, res, ro, hist>>
 ClearDone ==
     /\ pc = "clearing" /\ ToClear = {}
     /\ pc' = "conditioned"
+    /\ ro' = RewardOracle(desc, orc, prob, rstrat, prune)
     /\ UNCHANGED <<desc, orc, prune, nodes, prob, rstrat, rew, fstrat, res, hist>>
 
 \* value_iteration_total_rewards + _get_total_rewards_strategies
 RewardsEffect(rw, fs) ==
     /\ rew' = rw /\ fstrat' = fs /\ pc' = "rewarded"
-    /\ UNCHANGED <<desc, orc, prune, nodes, prob, rstrat, res, hist>>
+    /\ UNCHANGED <<desc, orc, prune, nodes, prob, rstrat, res, ro, hist>>
 Rewards(rw, fs) ==
     /\ pc = "conditioned"
-    /\ LET ro == RewardOracle(desc, orc, prob, rstrat, prune)
-       IN  /\ ro.ok                          \* otherwise the iteration may diverge
-           /\ RewardClauses(ro, rw) = {}
-           /\ FStratClauses(desc, ro, rstrat, fs) = {}
+    /\ ro.ok                                 \* otherwise the iteration may diverge
+    /\ RewardClauses(ro, rw) = {}
+    /\ FStratClauses(desc, ro, rstrat, fs) = {}
     /\ RewardsEffect(rw, fs)
 
 \* outside the stopping domain the reward iteration need not terminate
 Diverge ==
-    /\ pc = "conditioned" /\ ~RewardOracle(desc, orc, prob, rstrat, prune).ok
+    /\ pc = "conditioned" /\ ~ro.ok
     /\ pc' = "diverged"
-    /\ UNCHANGED <<desc, orc, prune, nodes, prob, rstrat, rew, fstrat, res, hist>>
+    /\ UNCHANGED <<desc, orc, prune, nodes, prob, rstrat, rew, fstrat, res, ro, hist>>
 
 Return == pc = "rewarded"
           /\ Finish([k |-> "Return", prob |-> prob, rstrat |-> rstrat, rew |-> rew, fstrat |-> fstrat])
@@ -140,8 +142,7 @@ Return == pc = "rewarded"
 -----------------------------------------------------------------------------
 (* The ideal solver: every value is the exact one *)
 IdealRewards ==
-    LET ro == RewardOracle(desc, orc, prob, rstrat, prune)
-        rw == [s \in 1..desc.n |-> IF s \in ro.Dom THEN ObsOf(ro.rv[s]) ELSE ObsOf(RZero)]
+    LET rw == [s \in 1..desc.n |-> IF s \in ro.Dom THEN ObsOf(ro.rv[s]) ELSE ObsOf(RZero)]
         val == [s \in 1..desc.n |-> IF s \in ro.Dom THEN ro.rv[s] ELSE RZero]
     IN  Rewards(rw, IdealStrat(desc, nodes, val))
 
@@ -182,7 +183,7 @@ OnlyUnreachableCleared ==
 \* C06 / C02: conditioning a stopping game yields a game that is stopping on
 \* the part the rewards are claimed for
 StoppingPreserved ==
-    (pc = "conditioned" /\ orc.stopping) => RewardOracle(desc, orc, prob, rstrat, prune).ok
+    (pc = "conditioned" /\ orc.stopping) => ro.ok
 
 \* with pruning every state the rewards are claimed for has positive value
 DomPositive ==
